@@ -442,6 +442,9 @@ func (w *walker) walk(sc *opScope, fc *fnCtx, ctlAcc AV, path []string, dup bool
 		isWait := len(a.held) == 1 && a.held[0] == "<wait>"
 		if !isWait {
 			for _, h := range a.held {
+				if isFresh(h) || isFresh(a.inst) {
+					continue // an unpublished instance cannot be held by anyone else
+				}
 				from, to := w.lockTypeName(h), lt
 				k := from + "->" + to
 				if from == to && h != a.inst {
